@@ -27,17 +27,6 @@ theorem C08_witness_product_quotient :
       evalS (envW 2 1 2 0) (den t') = some (.int 1) :=
   ⟨.quot false (.prod false [.var "a", .var "b"]) (.var "c"), by rfl, by decide, by decide⟩
 
-/-- class `separate-coefficients-drops-factors`: with `CollectCoefficients` alone, `a + b*(-1*c*n)` becomes
-`a - b*c` (`_process` looks only at `children[1]` of the minus-prefixed factor): at `a = 0, b = c = 1, n = 2`
-the value is -2, the result -1 -/
-theorem C08_witness_dropped_factor :
-    ∃ t', simp (kEq false) ⟨false, false, true, false⟩ 12
-        (.sum false [.var "a", .prod false [.var "b", .prod false [.pyint (-1), .var "c", .var "n"]]]) = some t' ∧
-      evalS (envW 0 1 1 2) (den (.sum false [.var "a", .prod false [.var "b", .prod false [.pyint (-1), .var "c", .var "n"]]]))
-        = some (.int (-2)) ∧
-      evalS (envW 0 1 1 2) (den t') = some (.int (-1)) :=
-  ⟨.sum false [.var "a", .prod false [.pyint (-1), .var "b", .var "c"]], by rfl, by decide, by decide⟩
-
 /-- the full statement is false of the code as it is -/
 theorem C08_full_false : ¬ C08_full := by
   intro h
